@@ -29,6 +29,8 @@ import QEProofs.Lemmas.C04MinmaxTie
 import QEProofs.Lemmas.C04Mono
 import QEProofs.Lemmas.C04Term2
 import QEProofs.Lemmas.C04Buf
+import QEProofs.Lemmas.C04MinmaxLex
+import QEProofs.Lemmas.C04Infeas
 import Mathlib.Algebra.Order.Field.Rat
 namespace QE.C04
 open QE QE.Pivot Finset
@@ -497,6 +499,52 @@ theorem linprog_classification (P : LP K) (fuel : ℕ)
   · exact Or.inr (Or.inl (h2.mp h))
   · exact Or.inr (Or.inr (h3.mp h))
 
+/-- **iteration_bound_subsets.** From a lex-positive start `solve_tableau` visits every `L`-subset
+    of the `N` columns at most once (the criterion row is determined by the *set* of basic
+    columns and strictly lex-decreases): at most `C(N,L) + 1` iterations, for every `max_iter`;
+    in particular Phase 1 of every LP. -/
+theorem iteration_bound_subsets (P : LP K) (fuel : ℕ) :
+    (solveTableau (tol0 : Tol K) false fuel (initTableau P) (initBasis P)).iters
+      ≤ (P.n + P.m + (P.m + P.k)).choose (P.m + P.k) + 1 := by
+  have hb := solveTableau_iters_bound_set false (initTableau P)
+    (fun j => (initTableau P).get (P.m + P.k) j) (P.m + P.k) (P.n + P.m + (P.m + P.k)) (by omega)
+    fuel (initTableau P) (initBasis P) ∅ (initTableau_termInv P) (by simp) (by simp)
+  simpa using hb
+
+/-- **linprog_terminates_default_cap.** On the whole domain of the property — at most 6 variables
+    and at most 5 constraint rows — with the *default* `max_iter = 10^6`, `linprog_simplex`
+    (exact arithmetic) never reports status 1 when Phase 2 starts from lex-positive rows
+    (`lexStartOK`): the bound `2(C(N,L)+1)+L ≤ 25 747` is far below the cap. -/
+theorem linprog_terminates_default_cap (P : LP K) (hn : P.n ≤ 6) (hL : P.m + P.k ≤ 5)
+    (hlex : lexStartOK P (10 ^ 6) (tol0 : Tol K) = true) :
+    (linprogSimplex P (10 ^ 6) tol0).status ≠ 1 :=
+  linprog_terminates_choose P (10 ^ 6) (domain_bound P.n P.m P.k hn hL) hlex
+
+/-- **linprog_classification_default_cap.** Same domain, default cap, `lexStartOK`: the status is
+    the class of the program — success exactly when an optimum exists, 2 exactly when
+    infeasible, 3 exactly when unbounded. -/
+theorem linprog_classification_default_cap (P : LP K) (hn : P.n ≤ 6) (hL : P.m + P.k ≤ 5)
+    (hlex : lexStartOK P (10 ^ 6) (tol0 : Tol K) = true) :
+    ((linprogSimplex P (10 ^ 6) tol0).status = 0 ↔ HasOptimum P) ∧
+    ((linprogSimplex P (10 ^ 6) tol0).status = 2 ↔ Infeasible P) ∧
+    ((linprogSimplex P (10 ^ 6) tol0).status = 3 ↔ Unbounded P) :=
+  linprog_classification_partial P (10 ^ 6) (linprog_terminates_default_cap P hn hL hlex)
+
+/-- **status2_iff_infeasible.** For *every* LP and every `max_iter > C(N,L) + 1`, `linprog_simplex`
+    (exact arithmetic) reports status 2 **exactly when** the constraints are infeasible — no
+    hypothesis on the exit status, on `lexStartOK` or on Phase 2: Phase 1 always terminates,
+    never reports 3, and a Phase-1 optimum of value 0 exhibits a feasible point. -/
+theorem status2_iff_infeasible (P : LP K) (fuel : ℕ)
+    (hfuel : (P.n + P.m + (P.m + P.k)).choose (P.m + P.k) + 1 < fuel) :
+    (linprogSimplex P fuel tol0).status = 2 ↔ Infeasible P :=
+  linprog_status2_iff P fuel hfuel
+
+/-- **status2_iff_infeasible_default_cap.** On the property's domain (≤ 6 variables, ≤ 5 rows) with
+    the default `max_iter = 10^6`: status 2 exactly when infeasible, unconditionally. -/
+theorem status2_iff_infeasible_default_cap (P : LP K) (hn : P.n ≤ 6) (hL : P.m + P.k ≤ 5) :
+    (linprogSimplex P (10 ^ 6) tol0).status = 2 ↔ Infeasible P :=
+  linprog_status2_iff P (10 ^ 6) (by have := domain_bound P.n P.m P.k hn hL; omega)
+
 /-! ## `minmax` -/
 
 /-- **minmax_start_canonical.** After the shift to a positive matrix and the two hand pivots
@@ -558,6 +606,32 @@ theorem minmax_never_unbounded (A : ℕ → ℕ → K) (m n fuel : ℕ) (hm : 1 
   · exact absurd (this.trans s) h1
   · exact absurd (this.trans s) h3
 
+/-- **minmax_value_certified.** `minmax` never looks at the status of its simplex run; this
+    theorem needs no hypothesis on it.  If the first column of `A` has a unique largest entry
+    (then the start tableau after the two hand pivots has lex-positive rows; the decidable guard
+    is `lexRowsOK (mmStart A m n)`) and `max_iter > C(n+1+m, m+1) + 3` (e.g. the default `10^6`
+    for every matrix up to 8×8), the returned `(v, x, y)` is a saddle-point certificate:
+    `x ∈ Δ_m`, `y ∈ Δ_n`, `min_j (xᵀA)_j = v = max_i (Ay)_i`. -/
+theorem minmax_value_certified (A : ℕ → ℕ → K) (m n fuel : ℕ) (hm : 1 ≤ m) (hn : 1 ≤ n)
+    (hlex : lexRowsOK (mmStart A m n) = true) (hfuel : (n + 1 + m).choose (m + 1) + 3 < fuel) :
+    let R := minmax A m n fuel (tol0 : Tol K)
+    let x := fun i => R.x.getD i 0
+    let y := fun j => R.y.getD j 0
+    ((∀ i, i < m → 0 ≤ x i) ∧ ∑ i ∈ range m, x i = 1) ∧
+    ((∀ j, j < n → 0 ≤ y j) ∧ ∑ j ∈ range n, y j = 1) ∧
+    (∀ j, j < n → R.v ≤ ∑ i ∈ range m, x i * A i j) ∧
+    (∀ i, i < m → ∑ j ∈ range n, A i j * y j ≤ R.v) ∧
+    (∃ j, j < n ∧ ∑ i ∈ range m, x i * A i j = R.v) ∧
+    (∃ i, i < m ∧ ∑ j ∈ range n, A i j * y j = R.v) :=
+  minmax_certificate A m n fuel hm hn (minmax_status0 A m n fuel hm hn hlex hfuel)
+
+/-- **minmax_guard_unique_max.** The guard of `minmax_value_certified` holds whenever the first
+    column of `A` has a unique largest entry. -/
+theorem minmax_guard_unique_max (A : ℕ → ℕ → K) (m n : ℕ) (hm : 1 ≤ m) (hn : 1 ≤ n)
+    (huniq : ∃ p, p < m ∧ ∀ i, i < m → i ≠ p → A i 0 < A p 0) :
+    lexRowsOK (mmStart A m n) = true :=
+  mmStart_lexRowsOK A m n hm hn huniq
+
 /-! ## non-vacuity: concrete programs over ℚ on which the hypotheses hold -/
 
 /-- max x+y s.t. x+y ≤ 1, −x−y ≤ −2 : infeasible -/
@@ -607,10 +681,29 @@ def exTol : Tol ℚ := ⟨1/1000000, 1/10000000, 1/10000000000000⟩
 example : (0 : ℚ) ≤ exTol.piv ∧
     (solveTableau exTol false 100 (initTableau exOptimal) (initBasis exOptimal)).status = 0 := by
   decide +kernel
+example : exOptimal.n ≤ 6 ∧ exOptimal.m + exOptimal.k ≤ 5 ∧ lexStartOK exOptimal (10 ^ 6) tol0 = true := by
+  decide +kernel
+example : (exInfeasible.n + exInfeasible.m + (exInfeasible.m + exInfeasible.k)).choose
+    (exInfeasible.m + exInfeasible.k) + 1 < 100 ∧ exInfeasible.n ≤ 6 ∧ exInfeasible.m + exInfeasible.k ≤ 5 := by
+  decide
 /-- matching pennies with a negative entry: value 0 at (1/2,1/2), (1/2,1/2) -/
 def exGame : ℕ → ℕ → ℚ := fnOfMat [[1, -1], [-1, 1]]
 example : (minmax exGame 2 2 100 tol0).status = 0 ∧ (minmax exGame 2 2 100 tol0).v = 0 ∧
     (minmax exGame 2 2 100 tol0).x = [1/2, 1/2] ∧ (minmax exGame 2 2 100 tol0).y = [1/2, 1/2] := by
   decide +kernel
+
+-- guard of `minmax_value_certified`: holds for `exGame` (unique maximum 1 in column 0) ...
+example : lexRowsOK (mmStart exGame 2 2) = true ∧ (2 + 1 + 2).choose (2 + 1) + 3 < 100 ∧
+    (∃ p, p < 2 ∧ ∀ i, i < 2 → i ≠ p → exGame i 0 < exGame p 0) := by
+  refine ⟨by decide +kernel, by decide, 0, by decide, ?_⟩
+  intro i hi hne
+  have : i = 1 := by omega
+  subst this
+  decide +kernel
+/-- ... and fails for a constant matrix (tie in column 0: a row of the start tableau is
+    lex-negative); the run still ends with status 0 and the value 2 -/
+def exConstGame : ℕ → ℕ → ℚ := fnOfMat [[2, 2], [2, 2]]
+example : lexRowsOK (mmStart exConstGame 2 2) = false ∧ (minmax exConstGame 2 2 100 tol0).status = 0 ∧
+    (minmax exConstGame 2 2 100 tol0).v = 2 := by decide +kernel
 
 end QE.C04
